@@ -263,6 +263,7 @@ def clause_d(ctx, P):
         ctx.ob("C13d.deadline-compare", fn.name, lt, fn.loc(ab), "a closure of the handler compares `next_time < deadline` (strict)")
     # F5 on the deadline lookup and all other accesses of hostname_resolvers
     f5.run_f5(ctx, P, {"hostname_resolvers"}, rule="C13d.F5.key-normalised", floor=7)
+    f5.check_single_folding(ctx, P, {"hostname_resolvers", "service_queriers"} & set(f5.MAPS), "C13d.F5.single-folding")
 
 
 def clause_e(ctx, P):
@@ -353,6 +354,8 @@ def clause_stop_forgets_addresses(ctx, P):
 
 
 def run(ctx, P):
+    from . import r2
+    r2.events_are_lossless(ctx, P, "C13j")
     clause_stop_forgets_addresses(ctx, P)
     clause_stop_paths(ctx, P)
     clause_a(ctx, P)
